@@ -23,6 +23,28 @@ type syncWorld struct {
 	log   []string
 	unsub map[int]func()
 	next  int
+	// independent Go oracle: the value, the active subscribers in subscription order, the callbacks that must have run, the queue
+	val    int
+	active []int
+	want   []string
+	fifo   []int
+	bad    []string
+}
+
+// expect: the counter goes to v — one callback per active subscriber, in subscription order, unless nothing changes.
+func (w *syncWorld) expect(v int) {
+	if v != w.val {
+		for _, id := range w.active {
+			w.want = append(w.want, fmt.Sprintf("%d:%d>%d", id, w.val, v))
+		}
+		w.val = v
+	}
+}
+
+func (w *syncWorld) check(what string, got, want any) {
+	if fmt.Sprint(got) != fmt.Sprint(want) {
+		w.bad = append(w.bad, fmt.Sprintf("%s: got %v, want %v", what, got, want))
+	}
 }
 
 // returnsOrBlocks: a wait that is expected to return does so at once; under load it is given the long bound when the
@@ -47,10 +69,20 @@ func (w *syncWorld) exec(op string) string {
 	num := err == nil
 	switch {
 	case f[0] == "c" && f[1] == "set" && num:
-		return strconv.Itoa(w.c.Set(n))
+		old := w.c.Set(n)
+		w.check("Set returns the old value", old, w.val)
+		w.expect(n)
+
+		return strconv.Itoa(old)
 	case f[0] == "c" && f[1] == "upd" && num:
-		return strconv.Itoa(w.c.Update(n))
+		nv := w.c.Update(n)
+		w.check("Update returns the new value", nv, w.val+n)
+		w.expect(w.val + n)
+
+		return strconv.Itoa(nv)
 	case f[0] == "c" && f[1] == "get":
+		w.check("Get", w.c.Get(), w.val)
+
 		return strconv.Itoa(w.c.Get())
 	case f[0] == "c" && f[1] == "sub":
 		w.next++
@@ -60,6 +92,7 @@ func (w *syncWorld) exec(op string) string {
 			w.log = append(w.log, fmt.Sprintf("%d:%d>%d", id, oldValue, newValue))
 			w.mu.Unlock()
 		})
+		w.active = append(w.active, id)
 
 		return strconv.Itoa(id)
 	case f[0] == "c" && f[1] == "sub0":
@@ -73,13 +106,21 @@ func (w *syncWorld) exec(op string) string {
 		}
 		u()
 		delete(w.unsub, n)
+		for k, id := range w.active {
+			if id == n {
+				w.active = append(w.active[:k:k], w.active[k+1:]...)
+
+				break
+			}
+		}
 
 		return "ok"
 	case f[0] == "c" && f[1] == "log":
 		w.mu.Lock()
 		defer w.mu.Unlock()
 		s := "[" + strings.Join(w.log, " ") + "]"
-		w.log = nil
+		w.check("subscriber callbacks (id:old>new, in order)", s, "["+strings.Join(w.want, " ")+"]")
+		w.log, w.want = nil, nil
 
 		return s
 	case f[0] == "c" && f[1] == "below" && num:
@@ -88,16 +129,25 @@ func (w *syncWorld) exec(op string) string {
 		return returnsOrBlocks(func() { w.c.WaitIsAbove(n) }, func() bool { return w.c.Get() > n })
 	case f[0] == "q" && f[1] == "push" && num:
 		w.q.Push(n)
+		w.fifo = append(w.fifo, n)
+		w.check("Size after Push", w.q.Size(), len(w.fifo))
 
 		return strconv.Itoa(w.q.Size())
-	case f[0] == "q" && f[1] == "pop":
-		if x, ok := w.q.Pop(); ok {
-			return strconv.Itoa(x)
+	case f[0] == "q" && (f[1] == "pop" || f[1] == "popwait"):
+		var x int
+		var ok bool
+		if f[1] == "pop" {
+			x, ok = w.q.Pop()
+		} else {
+			x, ok = w.q.PopOrWait(func() bool { return false })
 		}
+		w.check(f[1]+" success", ok, len(w.fifo) > 0)
+		if ok {
+			if len(w.fifo) > 0 {
+				w.check(f[1]+" hands out the oldest element", x, w.fifo[0])
+				w.fifo = w.fifo[1:]
+			}
 
-		return "none"
-	case f[0] == "q" && f[1] == "popwait":
-		if x, ok := w.q.PopOrWait(func() bool { return false }); ok {
 			return strconv.Itoa(x)
 		}
 
@@ -179,6 +229,10 @@ func runSync(line string) *result {
 			r.fail("counter-or-panic", "panic in "+op+": "+p, map[string]string{"api": "syncutils", "effect": "panic", "op": strings.Fields(op)[1]})
 		}
 		r.lines = append(r.lines, [2]string{op, a})
+		for _, b := range w.bad {
+			r.fail("sync-object", "after '"+op+"': "+b, map[string]string{"api": "syncutils." + map[string]string{"c": "Counter", "q": "Stack"}[strings.Fields(op)[0]], "effect": "sequential-spec", "op": strings.Fields(op)[1]})
+		}
+		w.bad = nil
 		r.count("s:" + strings.Join(strings.Fields(op)[:2], "-"))
 		r.count("s-answer:" + strings.Fields(a + " x")[0][:min(1, len(a))])
 	}
